@@ -2,7 +2,7 @@
 From Coq Require Import ZArith List Bool Lia.
 From Grpchan Require Import gen.Inproc model.Chan1 proofs.Chan1.
 From Grpchan Require model.HttpClient proofs.HttpClient.
-From Grpchan Require model.InprocStream proofs.StreamInv corr.Stream proofs.StreamTrace.
+From Grpchan Require model.InprocStream proofs.StreamInv corr.Stream proofs.StreamTrace proofs.StreamLive proofs.HttpLive.
 Import ListNotations.
 Close Scope Z_scope.
 
@@ -66,3 +66,54 @@ Theorem C05_http_no_sanity_panic : forall rs b0 e0 s rd dn lg,
   Grpchan.proofs.HttpClient.hreach rs b0 e0 s rd dn lg -> Grpchan.model.HttpClient.panicked s = false.
 Proof. exact Grpchan.proofs.HttpClient.no_sanity_panic. Qed.
 Print Assumptions C05_http_no_sanity_panic.
+
+(* ---- termination over the COMPLETE in-process stream LTS (proofs/StreamLive.v) ---- *)
+
+(* every run of internal steps is finite: n steps from s leave at least n units of the measure; with the
+   buffer bound that is at most resp_cap + 40 steps between two events of the environment (no livelock) *)
+Theorem C05_full_stream_internal_runs_are_bounded : forall rs s n s',
+  Grpchan.proofs.StreamInv.reachable rs s -> Grpchan.proofs.StreamLive.irun s n s' ->
+  (n <= Grpchan.model.InprocStream.resp_capn + 40)%nat.
+Proof. exact Grpchan.proofs.StreamLive.internal_run_length. Qed.
+Print Assumptions C05_full_stream_internal_runs_are_bounded.
+
+(* once the call's context has ended, or the handler has completely returned (its response channel is
+   closed), a state in which nothing can move has no pending operation of any actor: every SendMsg,
+   CloseSend, RecvMsg, Header on the client side and every operation on the handler side has returned *)
+Theorem C05_full_stream_nothing_blocked_when_over : forall rs s a,
+  Grpchan.proofs.StreamLive.wreach rs s -> Grpchan.proofs.StreamLive.quiescent s ->
+  Grpchan.model.InprocStream.cctx s <> 0%Z \/ Grpchan.model.InprocStream.respClosed s = true ->
+  Grpchan.model.InprocStream.get_pend s a = None.
+Proof. exact Grpchan.proofs.StreamLive.nothing_blocked_when_over. Qed.
+Print Assumptions C05_full_stream_nothing_blocked_when_over.
+
+(* as soon as the handler has returned (the library may still be flushing its final frames, which waits for
+   the client to make room while the context is live) nothing but that flush is pending *)
+Theorem C05_full_stream_only_the_return_waits : forall rs s a,
+  Grpchan.proofs.StreamLive.wreach rs s -> Grpchan.proofs.StreamLive.quiescent s ->
+  Grpchan.model.InprocStream.svrDone s = true -> a <> Grpchan.model.InprocStream.H ->
+  Grpchan.model.InprocStream.get_pend s a = None.
+Proof. exact Grpchan.proofs.StreamLive.only_the_return_waits_after_return. Qed.
+Print Assumptions C05_full_stream_only_the_return_waits.
+
+Theorem C05_full_stream_over_state_reachable : exists s,
+  Grpchan.proofs.StreamLive.wreach true s /\ Grpchan.proofs.StreamLive.quiescent s /\
+  Grpchan.model.InprocStream.respClosed s = true /\ Grpchan.model.InprocStream.svrDone s = true.
+Proof. exact Grpchan.proofs.StreamLive.over_state_reachable. Qed.
+
+(* ---- termination of the HTTP client stream (proofs/HttpLive.v) ---- *)
+
+Theorem C05_http_internal_runs_are_bounded : forall s n s',
+  Grpchan.proofs.HttpLive.irun s n s' -> (n <= 3 * length (Grpchan.model.HttpClient.body s) + 9)%nat.
+Proof. exact Grpchan.proofs.HttpLive.internal_run_length. Qed.
+Print Assumptions C05_http_internal_runs_are_bounded.
+
+(* once the call's context has ended (the caller's, or by the library's own cancel), or the stream has been
+   marked done, or the transport has delivered the end of the body: no RecvMsg stays blocked *)
+Theorem C05_http_no_blocked_receive : forall rs b0 e0 s rd dn lg,
+  Grpchan.proofs.HttpClient.hreach rs b0 e0 s rd dn lg -> Grpchan.proofs.HttpLive.quiescent s ->
+  Grpchan.model.HttpClient.sctx s <> 0%Z \/ Grpchan.model.HttpClient.done s = true \/
+  Grpchan.model.HttpClient.ended s = true ->
+  Grpchan.model.HttpClient.pCR s = None.
+Proof. exact Grpchan.proofs.HttpLive.no_blocked_receive. Qed.
+Print Assumptions C05_http_no_blocked_receive.
